@@ -15,6 +15,9 @@ import vlib
 
 def run(c):
     vlib.table_check(c, 'LoadAtomic', 'LoadAtomic.cfg', 'c18', workers=2, tlc_timeout=600, harness_timeout=3000)
+    # the meaning of format versions 1..3 entry by entry: the rows of the Merge table (MergeLaws.tla, remote-merge use)
+    # through the real LoadOnce - stored version x incoming entry x format version, incl. equal timestamps
+    vlib.table_check(c, 'MergeLaws', 'MergeLaws.cfg', 'c02', workers=4, tlc_timeout=600, harness_timeout=1500, args=['loadonce-only'])
     c.assumptions += ['LMDB provides MVCC isolation of read transactions (exercised, not verified)', 'shadow-mode rows run with dupsort_hack enabled']
     c.extra['rule'] = '1200 gate rows x real LoadOnce; 12 malformed-entry positions, 8 cancellation points, 7 (thorough 32) map sizes per mode; reader transactions during 30 merges per mode'
 
